@@ -31,6 +31,9 @@ type SpecEnv struct {
 	con     *Contract
 	pkg     string
 	bound   map[string]*Term
+	iterHeap  map[string]*Term      // state at the start of the current loop iteration, for iter(e)
+	iterCells map[*ssa.Alloc]Val
+	inIter    bool
 	goal    bool // evaluating something to be proved (skolemise positive foralls)
 	neg     bool // current polarity is negative
 	inOld   bool
@@ -150,6 +153,11 @@ func (env *SpecEnv) lookupLocal(name string) (Val, bool) {
 		}
 	}
 	if best != nil {
+		if env.inIter && env.iterCells != nil {
+			if v, ok := env.iterCells[best]; ok {
+				return v, true
+			}
+		}
 		return f.cells[best], true
 	}
 	// escaping locals live on the heap
@@ -897,6 +905,41 @@ func (env *SpecEnv) call(e *SExpr) Val {
 		env.withHeap(env.oldHeap, func() { r = env.ev(args[0]) })
 		env.inOld = savedOld
 		return r
+	case "iter":
+		// value of e at the start of the current loop iteration (at a loop head: the current value)
+		if env.iterHeap == nil {
+			return env.ev(args[0])
+		}
+		var r Val
+		saved := env.inIter
+		env.inIter = true
+		env.withHeap(copyHeap(env.iterHeap), func() { r = env.ev(args[0]) })
+		env.inIter = saved
+		return r
+	case "recvCount", "sendCount", "closeCount":
+		if len(args) != 1 || args[0].Kind != "str" {
+			env.fail("%s(\"channel name\")", name)
+		}
+		key := strings.TrimSuffix(name, "Count") + ":" + args[0].Name + ".count"
+		if v, ok := env.st.ghosts[key].(VInt); ok {
+			return v
+		}
+		return VInt{T: IntLit(0)}
+	case "sent":
+		if len(args) != 1 || args[0].Kind != "str" {
+			env.fail("sent(\"channel name\")")
+		}
+		if v, ok := env.st.ghosts["send:"+args[0].Name+".last"]; ok {
+			return v
+		}
+		return VInt{T: env.st.freshInt("nothing_sent")}
+	case "now":
+		if v, ok := env.st.ghosts["time.now"].(VInt); ok {
+			return v
+		}
+		n := VInt{T: Sym("now0", SInt)}
+		env.st.ghosts["time.now"] = n
+		return n
 	case "len":
 		return VInt{T: env.x.lenOf(env.st, env.ev(args[0]))}
 	case "cap":
